@@ -1,6 +1,7 @@
 package rules
 
 import (
+	"fmt"
 	"go/constant"
 	"go/types"
 
@@ -232,6 +233,95 @@ func (r *reader) headerStage(rule string) []*hdrPath {
 		out = append(out, hp)
 	})
 	return out
+}
+
+// lateRefusals: beyond the header stage (extended length, mask key, payload of
+// a control frame already read) a protocol error may only concern a close
+// frame, whose body is validated.  Every path of advanceFrame that returns
+// handleProtocolError is compared with the header alphabet: it must not be
+// compatible with a header RFC 6455 allows whose opcode is not close.
+func (r *reader) lateRefusals(rule string) {
+	c := r.c
+	var protos []*hdrPath
+	c.explore(rule, r.advance, core.Opts{Unroll: 0, Inline: r.inl()}, func(p *core.Path) {
+		if p.End != core.EndReturn || len(p.Results) != 2 {
+			return
+		}
+		e := p.Results[1]
+		if !(e.Kind == core.KCall && e.Ref == interface{}(r.protoErr)) {
+			return
+		}
+		var P *core.Term
+		first := -1
+		for i := range p.Events {
+			if ev := &p.Events[i]; callsStatic(ev, r.read) {
+				P = p.X.ExtractOf(ev.Result, 0, nil)
+				first = i
+				break
+			}
+		}
+		if first < 0 {
+			return
+		}
+		// a length that was not minimally encoded is not conformant either: the refusal is
+		// justified where the path bounds the decoded extended length below its class
+		var lens []*core.Term
+		for i := range p.Events {
+			if ev := &p.Events[i]; ev.Kind == core.EvStore && isFieldAddr(ev.Addr, r.readRemaining) {
+				lens = append(lens, ev.Val)
+			}
+		}
+		if len(lens) >= 2 {
+			lo7, has1 := p.X.Lower(lens[0])
+			hi7, has2 := p.X.Upper(lens[0])
+			hi, has3 := p.X.Upper(lens[1])
+			if has1 && has2 && has3 && lo7 == hi7 && ((lo7 == 126 && hi <= 125) || (lo7 == 127 && hi <= 65535)) {
+				return
+			}
+		}
+		hp := &hdrPath{P: P, kind: "proto", desc: c.P.Pos(p.Ret.Pos())}
+		isLeaf := r.isHdrLeaf(P)
+		for _, l := range p.Lits[p.Events[first].NLits:] {
+			if core.Evaluable(l.T, isLeaf) {
+				hp.lits = append(hp.lits, l)
+				hp.usesB1 = append(hp.usesB1, mentionsB1(l.T, P))
+			}
+		}
+		protos = append(protos, hp)
+	})
+	x := core.NewExplorer(c.P)
+	bad := ""
+	for b0 := 0; b0 < 256 && bad == ""; b0++ {
+		if b0&0xf == 8 {
+			continue
+		}
+		for st := 0; st < 8 && bad == ""; st++ {
+			s := &hdrState{b0: b0, readFinal: st&1 != 0, isServer: st&2 != 0, hasDecomp: st&4 != 0}
+			var cand []*hdrPath
+			for _, hp := range protos {
+				if r.compatible(x, hp, s, 0) {
+					cand = append(cand, hp)
+				}
+			}
+			for b1 := 0; b1 < 256 && len(cand) > 0 && bad == ""; b1++ {
+				s.b1 = b1
+				if class, decided := hdrVerdict(s); !decided || class != "" {
+					continue
+				}
+				for _, hp := range cand {
+					if r.compatible(x, hp, s, 1) {
+						bad = fmt.Sprintf("header bytes %#02x %#02x (message in progress=%v, server=%v, compression negotiated=%v) are allowed by RFC 6455, yet a path compatible with them returns a protocol error at %s", s.b0, s.b1, !s.readFinal, s.isServer, s.hasDecomp, hp.desc)
+						break
+					}
+				}
+			}
+		}
+	}
+	why := fmt.Sprintf("no protocol-error return of advanceFrame (%d paths) is compatible with a conformant non-close header", len(protos))
+	if bad != "" {
+		why = bad
+	}
+	c.R.Check(rule, shortFn(r.advance), "no-refusal-after-the-header-stage", r.advance.Pos(), bad == "" && len(protos) >= 9, why)
 }
 
 // compatible: do all evaluable literals of hp hold in state s?  stage 0 checks
